@@ -182,6 +182,10 @@ Proof. rewrite mut_header_flat. apply flat_layout_ok. apply mut_header_wf. Qed.
 Lemma mut_header_empty v nodeid we : abs_data (mut_header v nodeid we) = Ok [].
 Proof. rewrite mut_header_flat. rewrite (abs_data_flat 0) by apply mut_header_wf. reflexivity. Qed.
 
+Lemma fresh_container_ok_proof maxsz v nodeid we :
+  layout_ok maxsz (mut_header v nodeid we) = true /\ abs_data (mut_header v nodeid we) = Ok [].
+Proof. split; [apply mut_header_ok|apply mut_header_empty]. Qed.
+
 (* ================================ the C23 statements ============================================ *)
 
 Lemma refines_bytearray_proof maxsz fresh s ops :
